@@ -152,6 +152,12 @@ func c09(e *Env) {
 		}
 		trail := []string{" WHERE key = '" + tok + "'", " WHERE key = '" + tok + "' LIMIT 1", " WHERE key='" + tok + "' ALLOW FILTERING"}[c.Choose("trail", 3)]
 		kind := c.Weighted("stmtkind", []int{12, 1, 1, 1})
+		if kind == 0 && c.Choose("trail-without-where", 4) == 3 {
+			// clauses that follow the table name directly (the token then travels as a column alias)
+			trail = []string{" LIMIT 1", " ALLOW FILTERING", " ORDER BY key", " PER PARTITION LIMIT 1", " GROUP BY key", ";", " ;", ""}[c.Choose("trail2", 8)]
+			sel = "key AS " + tok
+			e.Res.Stats["probe.c09.clause_directly_after_table"]++
+		}
 		text, isSelect := "", false
 		switch kind {
 		case 0:
